@@ -81,10 +81,14 @@ func guard(timeout time.Duration, f func() string) (res string) {
 	select {
 	case r := <-ch:
 		return r
-	case <-time.After(timeout):
+	case <-time.After(timeout * time.Duration(atomic.LoadInt64(&slowFactor))):
 		return "hang"
 	}
 }
+
+// slowFactor stretches every guard timeout; a leg that saw a "hang" repeats the run with a larger
+// factor before it believes it (a starved machine is not a deadlock).
+var slowFactor int64 = 1
 
 const opTimeout = 60 * time.Second
 
